@@ -242,7 +242,10 @@ def py_oracles(pid, path):
         case = ev["case"]
         if ev["ev"] == "Init":
             ready_seen = {}
+            forced = set()
             g = ev["g"]
+        if ev["ev"] == "Force":
+            forced.add(ev["t"] - 1)
         st = ev["st"]
         # once reported ready, never reported in progress again
         for n in ev["notes"]:
@@ -262,7 +265,7 @@ def py_oracles(pid, path):
                                         replay={"trace": case_events(events, i + 1)}))
                 continue
             for t in range(g["n"]):
-                if g["chg"][t] != c + 1 or st["status"][t] != "Error":
+                if g["chg"][t] != c + 1 or st["status"][t] != "Error" or t in forced:
                     continue
                 pat = "- task %d (fail-%d-" % (t + 1, t + 1)
                 if pat not in ev["err"][c]:
